@@ -172,6 +172,15 @@ def _text_once(shape, obj):
             envify(k, v)
     results.append(("argv options", _try(lambda: sh.build().parse_args(argv))))
     results.append(("environment", _try(lambda: sh.build().parse_env(env))))
+
+    def run_env_renamed():
+        # the variable names follow the parser's current env_prefix, also when it is assigned after the parser was used
+        q = sh.build()
+        _try(lambda: q.parse_env({}))
+        q.env_prefix = "ZZ"
+        return q.parse_env({"ZZ_" + k[len("APP_"):]: v for k, v in env.items()})
+
+    results.append(("environment (env_prefix assigned after a first parse)", _try(run_env_renamed)))
     return results
 
 
@@ -350,14 +359,14 @@ def main(rep, tier):
     tshapes = shapes if tier == "thorough" else ["scalars", "lists", "groups", "subcommands", "dicts", "dataclass_opt"]
     tjobs = []
     for s_ in tshapes:
-        n = {"scalars": 6, "lists": 3, "dicts": 2, "restricted": 3, "unions": 3}.get(s_, 1)
+        n = {"scalars": 6, "lists": 4 if tier == "quick" else 16, "dicts": 2, "restricted": 3, "unions": 3}.get(s_, 1)
         for sh in range(n):
             kw = dict(shape=s_)
-            if s_ == "scalars":
+            if s_ == "scalars" or (s_ == "lists" and tier == "quick"):
                 kw["window"] = [0, 7]
             if n > 1:
                 kw.update(shard=sh, nshards=n)
-            tjobs.append(dict(module="c05", func="text_channels", kwargs=kw, timeout=200 if tier == "quick" else 900))
+            tjobs.append(dict(module="c05", func="text_channels", kwargs=kw, timeout=400 if tier == "quick" else 1500))
     results = run_jobs(jobs + tjobs)
     fails = absorb(rep, results, require_tags=("ok",))
     groups = {}
